@@ -18,7 +18,10 @@ NA = {
 
 COOP_NOTE = ("Trusted: the syntactic instrumenter (lock/atomic/receive sites are the only points where tasks interact), "
              "testing/synctest quiescence detection, the harness oracle. Sampling of schedules, not enumeration.")
-TECH_COOP = "deterministic simulation: seeded cooperative scheduler over instrumented real code, history oracle, ddmin-shrunk exactly replayable schedules"
+PC_NOTE = ("Trusted: testing/synctest fake clock and quiescence, the vnet router, the harness oracle. Every simulator decision (packet fate, workload, signaling fate) is a pure function of the seed; "
+           "goroutine interleaving inside the Go runtime is not controlled, so replay is decision-exact: the stored history is re-validated and the case re-executed several times. Sampling, not enumeration.")
+TECH_PC = "deterministic simulation: real PeerConnections in a fake-time bubble on a seeded fault-injecting network/signaling channel, reference-model oracle over the recorded history"
+TECH_COOP ="deterministic simulation: seeded cooperative scheduler over instrumented real code, history oracle, ddmin-shrunk exactly replayable schedules"
 
 # id -> (engine, category, text, note, technique, design_ref)
 CHECKS = {
@@ -28,6 +31,12 @@ CHECKS = {
     "C27": ("coop-component", "exploration",
             "Classification: the complete 256x256x6 (first byte, second byte, length class) grid is enumerated against the RFC 7983 table on every run. Delivery order: seeded search over interleavings of datagram arrival (simulated net.Conn) with NewEndpoint calls on the real mux under the cooperative scheduler; oracle = each datagram at most one endpoint, the right one, per-endpoint read order = arrival order, nothing lost below the queue cap.",
             COOP_NOTE + " At most 10 datagrams per run (queue cap 15 is not part of the property). Length 2-3 RTCP-looking datagrams may classify as SRTP or SRTCP.", TECH_COOP + "; exhaustive enumeration for the classification grid", "§6 C27"),
+    "C24": ("pcsim", "exploration",
+            "Seeded search over interleavings of a real ice.Agent's candidate callbacks (its notifier goroutine is adopted as a scheduler task) with CreateOffer/SetLocalDescription's candidate-pool flush on a real PeerConnection, scheduling points at every lock/atomic site of icegatherer.go; 1-3 host candidates, pool size 0/1, handler registered early/late, optional renegotiation. Oracle: every gathered candidate reported once, nil exactly once, nothing after nil.",
+            COOP_NOTE + " Only host/UDP4 candidates (simulated network has no STUN/TURN). The ice.Agent runs free between gatherer sites.", TECH_COOP + " (focus-coop on icegatherer.go inside a whole-PeerConnection simulation)", "§6 C24"),
+    "C19": ("pcsim", "exploration",
+            "Two real PeerConnections (real ICE, DTLS, SCTP) in one synctest bubble; the simulated network applies a seeded per-datagram fate (delay/jitter => reordering, loss, duplication, corruption, partitions) and then stops injecting faults. Oracle during the run: reliable ordered channels always hold a prefix of what was sent, nothing duplicated, bytes and text/binary flag intact; bounded liveness: 60 s fake after the last fault everything accepted was delivered; in-band channel parameters equal on the remote side.",
+            PC_NOTE, TECH_PC, "§6 C19"),
 }
 
 ENGINES = [
